@@ -1,6 +1,9 @@
 package props
 
 import (
+	"golang.org/x/tools/go/ssa"
+	"fmt"
+	"strings"
 	"regexp"
 
 	"kverif/core"
@@ -21,6 +24,41 @@ func init() {
 }
 
 func c08Rules(tier string) []Rule {
+	return append(c08RulesBase(tier),
+		// every command waits for its *own* replacements: the Replacement records handed to a Command are built in the
+		// iteration that builds the Command (a record shared by several commands latches Name / Initialized for all)
+		core.Custom{ID: "C08.PROV6", Kind: "PROV", Run: func(w *core.World, id string) []core.Result {
+			re := regexp.MustCompile(`^store &local<disr\.Command>\.Replacements = `)
+			var out []core.Result
+			n := 0
+			for _, fn := range w.Fns {
+				if !strings.HasPrefix(core.FnName(fn), "(*disr.") || core.IsTestSupport(fn) {
+					continue
+				}
+				for _, s := range w.Sites(fn, re, false) {
+					st := s.(*ssa.Store)
+					n++
+					r := w.Render(st.Val)
+					if !strings.HasPrefix(r, "disr.replacementsFromNodeClaims(") {
+						out = append(out, core.Bad(id, "PROV", "PROV:"+core.FnName(fn)+":replacements", w.InstrPos(s), "a command's replacements are `"+clipStr(r, 80)+"`, expected replacementsFromNodeClaims(results.NewNodeClaims...)"))
+						continue
+					}
+					if def, ok := st.Val.(ssa.Instruction); ok && !core.SameIteration(def, st) {
+						out = append(out, core.Bad(id, "PROV", "PROV:"+core.FnName(fn)+":replacements", w.InstrPos(s), "the replacement records are built outside the loop that builds the commands: every command of the pass shares (and overwrites) the same records"))
+					}
+				}
+			}
+			if n < 5 {
+				out = append(out, core.Bad(id, "PROV", "PROV:disr:replacements", "", fmt.Sprintf("vacuous: %d command literals with replacements found, 5 confirmed by hand", n)))
+			}
+			if len(out) == 0 {
+				out = append(out, core.OK(id, "PROV", "PROV:disr:replacements", n, "each command gets its own replacement records"))
+			}
+			return out
+		}})
+}
+
+func c08RulesBase(tier string) []Rule {
 	const (
 		wot   = "(*disr.Queue).waitOrTerminate"
 		start = "(*disr.Queue).StartCommand"
